@@ -1,6 +1,7 @@
 import RdpModel.Wire.Global
 import RdpModel.Wire.Mcs
 import RdpModel.Spec.Activation
+import RdpModel.Spec.Input
 import Driver.C13
 namespace Rdp.Driver
 open Rdp Rdp.Global Rdp.Spec
@@ -81,38 +82,53 @@ def parseLetter (s : String) : Option Letter :=
   | _ =>
     if s.startsWith "FB" then (s.drop 2).toString.toNat?.map Letter.fpBitmap else none
 
-/-- Oracle for alphabet histories: what the reference automaton expects to be *emitted*
-    and *delivered* at each step (the result code is not prescribed: `*`).  Each item of
-    `hist` is a server letter or `I` (an input attempt with `write`) / `J` (`try_write`).
-    The concrete bytes of an activation / an input frame are taken from the model run
-    (`modelOut`), so the oracle decides "whether and how many", C04/C11 decide "what". -/
-def oracleSteps : RState → List String → List String → List String → Option (List String)
-  | _, [], _, acc => some acc.reverse
-  | s, h :: hs, m :: ms, acc =>
+def specEvent : InEvent → Option Spec.Input.Event
+  | .pointer x y b d => some (.pointer x y (match b with | .none => .none | .left => .left | .right => .right | .middle => .middle) d)
+  | .key c d => some (.key c d)
+  | .bitmap => none
+
+def shareIdOf (op : String) : Option Nat :=
+  match op.toList with
+  | 'R' :: rest => (ofHex (String.ofList rest)).map fun b => leNat ((b.drop 6).take 4)
+  | _ => none
+
+/-- Oracle for alphabet histories: what the specifications expect to be *emitted* and
+    *delivered* at each step (the result code of a read is not prescribed: `*`).  Each item
+    of `hist` is a server letter, `I` (input via `write`), `J` (via `try_write`) or `X`
+    (an event kind that cannot be sent).  Activation bytes are checked by count here (C04
+    decides their content); an accepted input must be exactly the reference frame of
+    Spec/Input.lean for the share id of the last accepted demand-active. -/
+def oracleSteps (uid : Nat) : RState → Nat → List String → List String → List String → List String → Option (List String)
+  | _, _, [], _, _, acc => some acc.reverse
+  | s, sid, h :: hs, op :: ops, m :: ms, acc =>
     let sentOf := fun (x : String) => ((x.splitOn "[").getD 1 "").dropEnd 1 |>.toString
-    if h = "I" ∨ h = "J" then
-      -- input: accepted (exactly one frame) iff active; refused (`E`, or `ok` for try_write) otherwise
-      if s = .active then oracleSteps s hs ms (("ok[" ++ sentOf m ++ "][]") :: acc)
-      else oracleSteps s hs ms (((if h = "J" then "ok" else "E") ++ "[][]") :: acc)
+    if h = "X" then oracleSteps uid s sid hs ops ms ("E[][]" :: acc)
+    else if h = "I" ∨ h = "J" then
+      if s = .active then
+        let evs := if op.startsWith "T" then (op.drop 1).toString else op
+        match (parseInEvent evs).bind specEvent with
+        | some ev => oracleSteps uid s sid hs ops ms (("ok[" ++ toHex (Spec.Input.frame uid 1003 sid ev) ++ "][]") :: acc)
+        | none => none
+      else oracleSteps uid s sid hs ops ms (((if h = "J" then "ok" else "E") ++ "[][]") :: acc)
     else
       match parseLetter h with
       | none => none
       | some l =>
         let (s', r) := rstep s l
+        let sid' := if r = .activate then (shareIdOf op).getD sid else sid
+        let evs := (((m.splitOn "][").getD 1 "").dropEnd 1).toString
         let item := match r with
           | .nothing => "*[][]"
-          | .activate => "*[" ++ sentOf m ++ "][]"       -- five frames, checked by count below
-          | .deliver _ => "*[][" ++ (((m.splitOn "][").getD 1 "").dropEnd 1 |>.toString) ++ "]"
-        -- counts must match the reaction
+          | .activate => "*[" ++ sentOf m ++ "][]"
+          | .deliver _ => "*[][" ++ evs ++ "]"
         let nSent := if sentOf m = "" then 0 else ((sentOf m).splitOn "+").length
-        let evs := (((m.splitOn "][").getD 1 "").dropEnd 1).toString
         let nEv := if evs = "" then 0 else (evs.splitOn "|").length
         let okCount := match r with
           | .nothing => true
           | .activate => nSent == 5
           | .deliver n => nEv == n
-        oracleSteps s' hs ms ((if okCount then item else "!count-mismatch") :: acc)
-  | _, _ :: _, [], _ => none
+        oracleSteps uid s' sid' hs ops ms ((if okCount then item else "!count-mismatch") :: acc)
+  | _, _, _ :: _, _, _, _ => none
 
 def gsess (toks : List String) : String :=
   match toks with
@@ -125,7 +141,7 @@ def gsess (toks : List String) : String :=
         let model := ";".intercalate outs
         let oracle := match rest with
           | [hist] =>
-            match oracleSteps .awaiting ((hist.drop 2).toString.splitOn ",") outs [] with
+            match oracleSteps uid .awaiting 0 ((hist.drop 2).toString.splitOn ",") (ops.splitOn ",") outs [] with
             | some o => ";".intercalate o
             | none => "-"
           | _ => "-"
